@@ -328,7 +328,14 @@ def tecmp_good(rng):
     elif r < 0.7:
         mt, dt = 2, rng.choice([0, 2, 0x55])
         k = rng.choice([0, 1, 2, 9, 40, rng.randrange(41)])
-        p = wire.rbytes(rng, 12) + wire.rbytes(rng, 12 * k) + wire.rbytes(rng, rng.choice([0, 0, 5, 11]))
+        entries = [wire.rbytes(rng, 12) for _ in range(k)]
+        if k >= 2 and rng.random() < 0.4:                # several entries for one interface id (round5b-8)
+            for _ in range(rng.randrange(1, k)):
+                a, b = rng.randrange(k), rng.randrange(k)
+                entries[a][0:4] = entries[b][0:4]
+        if k >= 1 and rng.random() < 0.05:
+            entries = [[0] * 12 for _ in range(k)]       # a zero-filled entry table
+        p = wire.rbytes(rng, 12) + [x for e in entries for x in e] + wire.rbytes(rng, rng.choice([0, 0, 5, 11]))
         if bad:
             p = p[:rng.randrange(0, 12)]
     elif r < 0.9:
